@@ -23,6 +23,8 @@ func init() {
 		},
 		Run: runC32,
 		Controls: []Control{
+			{Name: "placeholder-takes-the-advertised-number", File: "protocols/isis/server/lsdb_entry.go", Old: "\t\t\tSequenceNumber:    0,\n", New: "\t\t\tSequenceNumber:    lspEntry.SequenceNumber,\n", Expect: "placeholder-compares-lower-than-any-copy"},
+			{Name: "lookup-under-read-lock-store-under-write-lock", File: "protocols/isis/server/lsdb.go", Old: "\tl.lspsMu.Lock()\n\tdefer l.lspsMu.Unlock()\n\n\texistingLSDBEntry, exists := l.lsps[lspdu.LSPID]\n", New: "\tl.lspsMu.Lock()\n\texistingLSDBEntry, exists := l.lsps[lspdu.LSPID]\n\tl.lspsMu.Unlock()\n\tl.lspsMu.Lock()\n\tdefer l.lspsMu.Unlock()\n", Expect: "decision-and-store-are-one-step"},
 			{Name: "newer-lsp-replaced-in-place", File: "protocols/isis/server/lsdb.go", Old: "\tlsdbEntry := newLSDBEntry(lspdu)\n\n\tfor _, i := range l.srv.netIfaManager.getAllInterfacesExcept(ifa) {", New: "\tlsdbEntry, exists := l.lsps[lspdu.LSPID]\n\tif exists {\n\t\tlsdbEntry.lspdu = lspdu\n\t} else {\n\t\tlsdbEntry = newLSDBEntry(lspdu)\n\t}\n\n\tfor _, i := range l.srv.netIfaManager.getAllInterfacesExcept(ifa) {", Expect: "newer-copy-starts-from-clean-flags"},
 			{Name: "refactor-entry-cases-reordered", Silent: true, File: "protocols/isis/server/lsdb.go", Old: "\tif e.sameAsInLSPEntry(lspEntry) {\n\t\te.clearSRMFlag(from)\n\t\treturn\n\t}\n\n\tif e.newerInDatabase(lspEntry) {\n\t\te.clearSSNFlag(from)\n\t\te.setSRM(from)\n\t\treturn\n\t}\n", New: "\tif e.newerInDatabase(lspEntry) {\n\t\te.setSRM(from)\n\t\te.clearSSNFlag(from)\n\t\treturn\n\t}\n\n\tif e.sameAsInLSPEntry(lspEntry) {\n\t\te.clearSRMFlag(from)\n\t\treturn\n\t}\n"},
 			{Name: "refactor-aging-with-else", Silent: true, File: "protocols/isis/server/lsdb.go", Old: "\t\tif lspdbEntry.lspdu.RemainingLifetime <= 1 {\n\t\t\tdelete(l.lsps, lspid)\n\t\t\tcontinue\n\t\t}\n\n\t\tlspdbEntry.lspdu.RemainingLifetime--\n", New: "\t\tif lspdbEntry.lspdu.RemainingLifetime <= 1 {\n\t\t\tdelete(l.lsps, lspid)\n\t\t} else {\n\t\t\tlspdbEntry.lspdu.RemainingLifetime--\n\t\t}\n"},
@@ -38,6 +40,8 @@ func init() {
 
 func runC32(c *core.Ctx) {
 	newerCopyStartsFromCleanFlags(c)
+	placeholderHasSequenceZero(c)
+	decisionAndStoreAreOneStep(c, c.P.Func(isisSrv+".(*lsdb).processLSP"), c.P.Func(isisSrv+".(*lsdb).processCSNP"), c.P.Func(isisSrv+".(*lsdb).processPSNP"))
 	p := c.P
 	lspsF := p.Field(isisSrv, "lsdb", "lsps")
 	seqF := p.Field("protocols/isis/packet", "LSPDU", "SequenceNumber")
